@@ -317,7 +317,10 @@ def total_mem_usage(df, index=True, deep=False):
 def idxmaxmin_chunk(x, fn=None, skipna=True, numeric_only=False):
     numeric_only_kwargs = {} if is_series_like(x) else {"numeric_only": numeric_only}
     minmax = "max" if fn == "idxmax" else "min"
-    if len(x) > 0:
+    # With skipna an all-NA Series partition contributes nothing, like an empty
+    # one (pandas >= 3 raises "Encountered all NA values" for it)
+    all_na = skipna and is_series_like(x) and len(x) > 0 and bool(x.isna().all())
+    if len(x) > 0 and not all_na:
         idx = getattr(x, fn)(skipna=skipna, **numeric_only_kwargs)
         value = getattr(x, minmax)(skipna=skipna, **numeric_only_kwargs)
     else:
